@@ -52,7 +52,7 @@ theorem fiber_image_wf_generic (C : Checks) (hC : C.allOn = true) (h : FiberHdr)
   refine ⟨⟨hs1, hs2, hs3⟩, Nat.le_add_right _ _, acceptFrames_wf C hC _ _ _ _ hfr, hst, hf0', ?_⟩
   intro hr
   have hpos := hf0' hr
-  simp only [hr, hpos, decide_true, Bool.and_self, Bool.not_true, Bool.false_or] at hres
+  simp only [resumable_mustCheck _ hr, hpos, decide_true, Bool.and_self, Bool.not_true, Bool.false_or] at hres
   cases frames with
   | nil => simp at hres
   | cons fr rest =>
